@@ -24,8 +24,9 @@ PathTab == JsonDeserialize(IOEnv.VERIF_PATHS)     \* path string -> components b
 Trees   == JsonDeserialize(IOEnv.VERIF_TREES)     \* tree id -> sequence of [path |-> string, blob |-> string]
 
 VARIABLE i
-Init == i \in DOMAIN Rec
-Next == UNCHANGED i
+\* (records are judged in successor states, i.e. by TLC's worker threads, whose stack size is configurable)
+Init == i = 0
+Next == i = 0 /\ i' \in DOMAIN Rec
 Spec == Init /\ [][Next]_i
 
 H == Rec[i]
@@ -127,6 +128,6 @@ PredEqual ==
 
 DoneOut(done) == LET ds == SetToSeq(done) IN [k \in DOMAIN ds |-> [path |-> ds[k][1], ident |-> ds[k][2]]]
 
-Judge == LET r == Result IN
+Judge == i = 0 \/ LET r == Result IN
   /\ PrintT(<<"OUT", ToJson([hid |-> H.hid, bad |-> r.bad, done |-> DoneOut(r.done), pred_equal |-> PredEqual])>>)
 =============================================================================
